@@ -98,6 +98,16 @@ func (w *World) evalStr(v ssa.Value, env senv, depth int) sval {
 			}
 			return sval{parts: mergeLits(w.renderFormat(fs, args, env, depth))}
 		}
+		// strconv.Quote(x) is the text %q prints for a string
+		if name == "strconv.Quote" && len(x.Call.Args) == 1 {
+			sub := w.evalStr(x.Call.Args[0], env, depth+1)
+			if len(sub.parts) == 1 && sub.parts[0].Leaf != nil {
+				pp := sub.parts[0]
+				pp.Verb = "q"
+				return sval{parts: []spart{pp}}
+			}
+			return sval{parts: []spart{{Leaf: x.Call.Args[0], Verb: "q"}}}
+		}
 		// decimal rendering of an integer: the same text as %d
 		if (name == "strconv.Itoa" || name == "strconv.FormatInt" || name == "strconv.FormatUint") && len(x.Call.Args) >= 1 {
 			base10 := name == "strconv.Itoa"
